@@ -49,7 +49,7 @@ func (c CounterOfferTx) Validate(ctx *action.Context, signedTx action.SignedTx) 
 	if !ok {
 		panic("no default currency available in the network")
 	}
-	if currency.Name != counterOffer.Amount.Currency {
+	if currency.Name != counterOffer.Amount.Currency || !counterOffer.Amount.IsValid(ctx.Currencies) {
 		return false, errors.Wrap(action.ErrInvalidAmount, counterOffer.Amount.String())
 	}
 
